@@ -193,7 +193,10 @@ def build(case):
     def noise(n):
         for i in range(n):
             if i % 2 == 0:
-                doc.lines.append((0, [("' note %d" % i, None)], None))
+                # a comment may hold characters that LOOK like line breaks to some tools (form feed, vertical tab, NEL, U+2028,
+                # U+2029): for BASIC they are characters of the comment - one column each, no new row
+                odd = ["\x0c", "\x0b", "\u0085", "\u2028", "\u2029"][(i // 2 + len(case["chain"]) + case.get("blank", 0)) % 5]
+                doc.lines.append((0, [("' note %d %s page" % (i, odd), None)], None))
             else:
                 doc.lines.append(None)
 
